@@ -17,8 +17,8 @@ ID = "C13"
 CASES = {"quick": 480, "thorough": 6000}
 FLOOR = {"quick": 420, "thorough": 5500}
 FLOOR_COUNTERS = {
-    "quick": {"relations_judged": 6000, "x_wider_cases": 50, "x_narrower_cases": 50, "lre_calls": 900, "grd_calls": 800, "overlapping_index_cases": 80, "planted_map_cases": 60, "reference_implementations_judged": 250, "large_offset_shift_relations": 100, "integer_typed_inputs": 150, "target_rotations_with_default_scoring": 150, "index_arrays_reused_on_other_data": 30},
-    "thorough": {"relations_judged": 80000, "x_wider_cases": 600, "x_narrower_cases": 600, "lre_calls": 12000, "grd_calls": 10000, "overlapping_index_cases": 1000, "planted_map_cases": 800, "reference_implementations_judged": 3500, "large_offset_shift_relations": 1200, "integer_typed_inputs": 2000, "target_rotations_with_default_scoring": 2000, "index_arrays_reused_on_other_data": 400},
+    "quick": {"relations_judged": 6000, "x_wider_cases": 50, "x_narrower_cases": 50, "lre_calls": 900, "grd_calls": 800, "overlapping_index_cases": 80, "planted_map_cases": 60, "reference_implementations_judged": 250, "large_offset_shift_relations": 100, "integer_typed_inputs": 150, "target_rotations_with_default_scoring": 150, "index_arrays_reused_on_other_data": 30, "parallel_lre_calls": 20},
+    "thorough": {"relations_judged": 80000, "x_wider_cases": 600, "x_narrower_cases": 600, "lre_calls": 12000, "grd_calls": 10000, "overlapping_index_cases": 1000, "planted_map_cases": 800, "reference_implementations_judged": 3500, "large_offset_shift_relations": 1200, "integer_typed_inputs": 2000, "target_rotations_with_default_scoring": 2000, "index_arrays_reused_on_other_data": 400, "parallel_lre_calls": 300},
 }
 RULE = (
     "case = X, Y with equal sample count (12-60) and feature counts 2-8 on each side (X wider / equal / narrower by "
@@ -73,6 +73,7 @@ def gen(rng, tier, index):
         "dtypes": dt,
         "extra_rows": int(rng.integers(1, 12)),
         "rot_scoring": gens.pick(rng, ("neg_mean_squared_error", None)),
+        "n_jobs": 2 if index % 16 == 5 else None,  # the local measure's public parallel entry
         "idx": idx,
         "train_idx": tr,
         "test_idx": te,
@@ -266,6 +267,12 @@ def run(case, j):
             got = M.pointwise_local_reconstruction_error(X, Y, k, train_idx=tr, test_idx=te, estimator=e())
             j.close("pointwise LRE == explicit k-nearest-neighbour local ridge reconstruction", got, ref_lre, 1e-7 * max(1.0, float(ref_lre.max())))
             j.note("lre_calls")
+            if case.get("n_jobs"):
+                got2 = j.lib("pointwise LRE (n_jobs=2)", M.pointwise_local_reconstruction_error, X, Y, k, train_idx=tr, test_idx=te, estimator=e(), n_jobs=case["n_jobs"])
+                j.close("pointwise LRE with n_jobs=2 == explicit reference", got2, ref_lre, 1e-7 * max(1.0, float(ref_lre.max())))
+                g2 = j.lib("LRE (n_jobs=2)", M.local_reconstruction_error, X, Y, k, train_idx=tr, test_idx=te, estimator=e(), n_jobs=case["n_jobs"])
+                j.close("LRE with n_jobs=2 == root mean square of the reference", g2, float(np.sqrt(np.mean(ref_lre**2))), 1e-7 * max(1.0, float(ref_lre.max())))
+                j.note("parallel_lre_calls", 2)
         j.note("reference_implementations_judged")
         j.note("relations_judged", 3)
     # ---- the same index arrays used on a second data set: "the rows counted from the end" of longer data
